@@ -53,6 +53,7 @@ type Profile struct {
 	NoSelfTakeover  bool
 	KeepSharedConnected bool
 	DupQ2Pct    int
+	CollidePct  int
 	Size        []int
 }
 
@@ -68,6 +69,7 @@ type genState struct {
 	ver       []byte
 	hold      []bool
 	pendingQ2 map[int][]uint16
+	pidCtr    uint16
 }
 
 // Generate builds a config and an operation list.
@@ -109,11 +111,11 @@ func (p *Profile) Generate(r *vk.Rand) (*Config, []string, []Op) {
 		}
 	}
 	n := len(p.SlotIDs)
-	st := &genState{connected: make([]bool, n), ver: make([]byte, n), hold: make([]bool, n)}
+	st := &genState{connected: make([]bool, n), ver: make([]byte, n), hold: make([]bool, n), pendingQ2: map[int][]uint16{}}
 	var ops []Op
 	steps := r.Range(p.Steps[0], p.Steps[1])
 	kinds := make([]string, 0, len(p.W))
-	for _, k := range []string{"connect", "subscribe", "unsubscribe", "publish", "disconnect", "ping", "hold", "tick"} {
+	for _, k := range []string{"connect", "subscribe", "unsubscribe", "publish", "disconnect", "ping", "hold", "tick", "retransmit", "pubrel", "ackone"} {
 		if p.W[k] > 0 {
 			kinds = append(kinds, k)
 		}
@@ -192,6 +194,9 @@ func (p *Profile) Generate(r *vk.Rand) (*Config, []string, []Op) {
 			op := mkConnect(slot)
 			ops = append(ops, op)
 			st.connected[slot], st.ver[slot], st.hold[slot] = true, op.Ver, false
+			if op.Clean {
+				st.pendingQ2[slot] = nil
+			}
 			for j := range st.connected {
 				if j != slot && p.SlotIDs[j] == p.SlotIDs[slot] {
 					st.connected[j] = false // taken over
@@ -249,7 +254,30 @@ func (p *Profile) Generate(r *vk.Rand) (*Config, []string, []Op) {
 			if len(p.Size) > 0 {
 				op.Size = vk.Pick(r, p.Size)
 			}
+			if op.QoS == 2 && r.Chance(p.DupQ2Pct) {
+				// withhold PUBREL; retransmissions and the release follow later
+				st.pidCtr++
+				op.PID = 40000 + st.pidCtr
+				op.Hold = true
+				st.pendingQ2[slot] = append(st.pendingQ2[slot], op.PID)
+			}
+			if op.QoS > 0 && r.Chance(p.CollidePct) {
+				op.Collide = true
+			}
 			ops = append(ops, op)
+		case "retransmit":
+			if !st.connected[slot] || len(st.pendingQ2[slot]) == 0 {
+				continue
+			}
+			ops = append(ops, Op{Kind: "publish", C: slot, QoS: 2, Dup: true, PID: vk.Pick(r, st.pendingQ2[slot]), Topic: vk.Pick(r, p.Topics), Hold: true})
+		case "pubrel":
+			if !st.connected[slot] || len(st.pendingQ2[slot]) == 0 {
+				continue
+			}
+			k := r.Intn(len(st.pendingQ2[slot]))
+			pid := st.pendingQ2[slot][k]
+			st.pendingQ2[slot] = append(st.pendingQ2[slot][:k], st.pendingQ2[slot][k+1:]...)
+			ops = append(ops, Op{Kind: "pubrel", C: slot, PID: pid})
 		case "disconnect":
 			if !st.connected[slot] {
 				continue
@@ -274,6 +302,11 @@ func (p *Profile) Generate(r *vk.Rand) (*Config, []string, []Op) {
 			}
 			st.hold[slot] = !st.hold[slot]
 			ops = append(ops, Op{Kind: "hold", C: slot, Hold: st.hold[slot]})
+		case "ackone":
+			if !st.connected[slot] || !st.hold[slot] {
+				continue
+			}
+			ops = append(ops, Op{Kind: "ackone", C: slot})
 		case "tick":
 			d := int64(100)
 			if len(p.TickDelta) > 0 {
